@@ -167,48 +167,61 @@ def lattice_rules(model, R):
     else:
         R.check(ok, 'MAPPING', f, f.node, 'lattice(properties): the member whose extent is the derivation of the properties',
                 'self._mapping[self._context.extension(properties, raw=True)]', src(r[0]) if r else '')
-    # __getitem__
+    # __getitem__ : read as a case analysis (path condition -> returned value), so early returns, if/elif/else and inverted tests are one thing
     f = model.func('lattices.CollectionMixin.__getitem__')
     S = Sorter(f)
     key = f.params[1]
-    branches = [s for s in f.body if isinstance(s, ast.If)]
-    int_ok = top_ok = False
-    for s in branches:
-        t = s.test
-        ret = s.body[0].value if s.body and isinstance(s.body[0], ast.Return) else None
-        if isinstance(t, ast.Call) and name_is(t.func, 'isinstance') and name_is(t.args[0], key):
-            int_ok = (isinstance(ret, ast.Subscript) and chain(ret.value) == ['self', '_concepts'] and name_is(ret.slice, key)
-                      and 'int' in src(t.args[1]))
-        tt, neg = strip_not(t)
-        if neg and name_is(tt, key):
-            top_ok = chain(ret) == ['self', 'supremum']
-    wrong_types = None
-    for s in branches:
-        t0, neg0 = strip_not(s.test)
-        if isinstance(t0, ast.Call) and name_is(t0.func, 'isinstance') and len(t0.args) == 2 and name_is(t0.args[0], key):
-            types = {(chain(e) or ['?'])[-1] for e in (t0.args[1].elts if isinstance(t0.args[1], ast.Tuple) else [t0.args[1]])}
-            if neg0 or not types <= {'int', 'slice', 'Integral'}:
-                wrong_types = (s, f'{"not " if neg0 else ""}isinstance({key}, {src(t0.args[1])})')
-    if wrong_types and not int_ok:
-        R.bad('MAPPING', f, wrong_types[0], 'lattice[i]: positions are told from label collections by being integers', f'isinstance({key}, (int, slice))', wrong_types[1],
+    from ..astutil import context_of
+    env = Env(f)
+    cases = []
+    for ret in sorted((n for n in walk(f.body) if isinstance(n, ast.Return) and n.value is not None), key=lambda n: n.lineno):
+        ctx = context_of(f.body, ret) or []
+        is_int = truthy = None
+        order = []
+        types_seen = None
+        for c in ctx:
+            if c[0] not in ('if', 'guard'):
+                continue
+            t0, neg0 = strip_not(c[1])
+            if isinstance(t0, ast.Call) and name_is(t0.func, 'isinstance') and len(t0.args) == 2 and name_is(t0.args[0], key):
+                types_seen = ({(chain(e) or ['?'])[-1] for e in (t0.args[1].elts if isinstance(t0.args[1], ast.Tuple) else [t0.args[1]])}, neg0, c)
+                is_int = (c[2] != neg0)
+                order.append('int')
+            elif name_is(t0, key):
+                truthy = (c[2] != neg0)
+                order.append('key')
+        cases.append((ret, is_int, truthy, order, types_seen))
+    wrong_types = [(c[4][2], c[4]) for c in cases if c[4] is not None and not c[4][0] <= {'int', 'slice', 'Integral'}]
+    int_case = [c for c in cases if isinstance(c[0].value, ast.Subscript) and chain(c[0].value.value) == ['self', '_concepts'] and name_is(c[0].value.slice, key)]
+    top_case = [c for c in cases if chain(env.expand(c[0].value)) == ['self', 'supremum']]
+    map_case = [c for c in cases if isinstance(env.expand(c[0].value), ast.Subscript) and chain(env.expand(c[0].value).value) == ['self', '_mapping']]
+    if wrong_types:
+        cnode, (types, neg0, _) = wrong_types[0]
+        R.bad('MAPPING', f, cnode[1], 'lattice[i]: positions are told from label collections by being integers', f'isinstance({key}, (int, slice))',
+              f'isinstance({key}, ({", ".join(sorted(types))}))' + (' negated' if neg0 else ''),
               extra={'consequence': 'a label collection of another type than the ones listed (set, frozenset, dict keys, generator) is used as a list index: TypeError'})
     else:
-        R.check(int_ok, 'MAPPING', f, f.node, 'lattice[i]: the i-th member of the iteration order', 'if isinstance(key, (int, slice)): return self._concepts[key]')
-    int_line = [s.lineno for s in branches if isinstance(s.test, ast.Call) and name_is(s.test.func, 'isinstance')]
-    top_line = [s.lineno for s in branches if strip_not(s.test)[1] and name_is(strip_not(s.test)[0], key)]
-    if int_line and top_line:
-        R.check(int_line[0] < top_line[0], 'MAPPING', f, f.node, 'integer keys are dispatched before the falsy-key test (0 is falsy)',
-                'isinstance(key, (int, slice)) branch first', 'the "not key" branch comes first: lattice[0] returns the top concept')
-    R.check(top_ok, 'MAPPING', f, f.node, 'lattice[()]: the top concept', 'if not key: return self.supremum')
-    last = f.body[-1]
-    env = Env(f)
+        ok = len(int_case) == 1 and int_case[0][1] is True
+        R.check(ok, 'MAPPING', f, int_case[0][0] if int_case else f.node, 'lattice[i]: the i-th member of the iteration order',
+                'if isinstance(key, (int, slice)): return self._concepts[key]', 'no such case' if not int_case else f'reached with isinstance(...) {int_case[0][1]}')
+    if len(top_case) == 1 and top_case[0][2] is False:
+        R.ok('MAPPING', f, top_case[0][0], 'lattice[()]: the top concept')
+        # 0 is falsy: the integer dispatch must already have been decided on the path to the falsy-key case
+        R.decided(top_case[0][1] is False and top_case[0][3].index('int') < top_case[0][3].index('key') if 'int' in top_case[0][3] else False,
+                  'MAPPING', f, top_case[0][0], 'integer keys are dispatched before the falsy-key test (0 is falsy)', 'isinstance(key, (int, slice)) branch first',
+                  'the "not key" test is reached by integer keys: lattice[0] returns the top concept')
+    elif len(top_case) == 1 and top_case[0][2] is True:
+        R.bad('MAPPING', f, top_case[0][0], 'lattice[()]: the top concept', 'if not key: return self.supremum', 'the top concept is returned for non-empty keys')
+    else:
+        R.unknown('MAPPING', f, f.node, 'lattice[()]: the top concept', f'{len(top_case)} cases returning self.supremum under a test of the key')
     ok = False
-    if isinstance(last, ast.Return) and isinstance(last.value, ast.Subscript) and chain(last.value.value) == ['self', '_mapping']:
-        k = last.value.slice
+    last = map_case[0][0] if len(map_case) == 1 else f.body[-1]
+    if len(map_case) == 1 and map_case[0][1] is not True and map_case[0][2] is not False:
+        k = env.expand(map_case[0][0].value).slice
         ks = S.sort(k)
         if ks == 'P':
             R.bad('SORT', f, last, 'mapping key is an object set', 'extent', f'{src(k)}: property set')
-        call = [s for s in f.body if isinstance(s, ast.Assign) and isinstance(s.value, ast.Call) and chain(s.value.func) == ['self', '_context', '__getitem__']]
+        call = [s for s in stmts(f.body) if isinstance(s, ast.Assign) and isinstance(s.value, ast.Call) and chain(s.value.func) == ['self', '_context', '__getitem__']]
         ok = (ks == 'O' and len(call) == 1 and name_is(call[0].value.args[0], key)
               and any(k2.arg == 'raw' and const(k2.value) is True for k2 in call[0].value.keywords))
         if not call:
